@@ -136,7 +136,9 @@ theorem generic_roundtrip_aux (env : Env) (fmt : Fmt) (L : Leaves) (hL : LeafSou
             fd.yamlSkip = false ∧
             (fd.yamlInline = true → zeroVal env f fd.ty = .null ∧ (fmt = .yaml ∨ skipOf fmt fd = true) ∧
               fd.yamlKey ∉ (s.fields.filter (keyed fmt)).map (keyOf fmt)) ∧
-            (fd.yamlInline = false → skipOf fmt fd = false ∧ keyOf fmt fd = fd.yamlKey ∧ plainB env fmt L.names f fd.ty = true) := by
+            (fd.yamlInline = false →
+              (skipOf fmt fd = true → fd.yamlKey ∉ (s.fields.filter (keyed fmt)).map (keyOf fmt)) ∧
+              (skipOf fmt fd = false → keyOf fmt fd = fd.yamlKey ∧ plainB env fmt L.names f fd.ty = true)) := by
           intro fd hm hr
           rcases hflds fd hm with h | h
           · rw [hr] at h; cases h
@@ -148,8 +150,12 @@ theorem generic_roundtrip_aux (env : Env) (fmt : Fmt) (L : Leaves) (hL : LeafSou
               exact ⟨isNull_eq this.1.1, this.1.2, this.2⟩
             · intro hi
               have := h.2
-              simp only [hi, Bool.false_eq_true, if_false, Bool.and_eq_true, Bool.not_eq_true', beq_iff_eq] at this
-              exact ⟨this.1.1, this.1.2, this.2⟩
+              simp only [hi, Bool.false_eq_true, if_false] at this
+              constructor
+              · intro hsk
+                simpa [hsk] using this
+              · intro hsk
+                simpa [hsk] using this
         have hkeyed_facts : ∀ fd ∈ s.fields, keyed fmt fd = true → rendered fd = true ∧ fd.yamlInline = false := by
           intro fd hm hk
           have hr : rendered fd = true := keyed_rendered fmt fd hk
@@ -167,16 +173,21 @@ theorem generic_roundtrip_aux (env : Env) (fmt : Fmt) (L : Leaves) (hL : LeafSou
           have hr : rendered fd = true := notskip_rendered fmt fd hsk
           rw [hfield fd hm hr]
           exact (hvals fd hm hr).1 hi
-        have homit : ∀ fd ∈ s.fields, rendered fd = true →
+        have homit : ∀ fd ∈ s.fields, rendered fd = true → skipOf fmt fd = false →
             omitted fmt (zeroOf env fmt) fs fd = omittedF env fmt fd (vals fd) := by
-          intro fd hm hr
-          simp only [omitted, omittedF, hfield fd hm hr]
+          intro fd hm hr hsk
+          simp only [omitted, omittedF, hfield fd hm hr, hsk, Bool.false_or]
+        have hkeyed_noskip : ∀ fd, keyed fmt fd = true → skipOf fmt fd = false := by
+          intro fd hk
+          simp only [keyed, Bool.and_eq_true, Bool.not_eq_true'] at hk
+          exact hk.1
         have hencok : ∃ out, encodeFieldsWith fmt (encode env fmt f) (zeroOf env fmt) s.fields fs = .ok (.map out) := by
           apply encodeFields_ok fmt _ _ s.fields fs hni
           intro fd hm hk hom
           obtain ⟨hr, hi⟩ := hkeyed_facts fd hm hk
-          rw [homit fd hm hr] at hom
-          obtain ⟨t, he, _, _⟩ := ih fd.ty (vals fd) ((hfd fd hm hr).2.2 hi).2.2 ((hvals fd hm hr).2.2 hi hom)
+          have hsk := hkeyed_noskip fd hk
+          rw [homit fd hm hr hsk] at hom
+          obtain ⟨t, he, _, _⟩ := ih fd.ty (vals fd) (((hfd fd hm hr).2.2 hi).2 hsk).2 ((hvals fd hm hr).2.2 hi hom)
           rw [hfield fd hm hr]
           exact ⟨t, he⟩
         obtain ⟨out, hout⟩ := hencok
@@ -192,16 +203,23 @@ theorem generic_roundtrip_aux (env : Env) (fmt : Fmt) (L : Leaves) (hL : LeafSou
               lookup_none_of_not_mem (fun hmem => (hinl hi).2.2 (encodeFields_keys fmt _ _ s.fields fs out hni hout _ hmem))
             simp only [hsk, Bool.false_eq_true, if_false, hnk, (hinl hi).1, (hvals fd hm hr).1 hi]
           · have hi' : fd.yamlInline = false := by simpa using hi
-            obtain ⟨hnsk, hkey, hplain⟩ := hpl hi'
+            by_cases hskip : skipOf fmt fd = true
+            · -- left out by this format: the key is not in the rendering, the value is the zero value
+              have hnk : Val.lookup fd.yamlKey out = none :=
+                lookup_none_of_not_mem (fun hmem => ((hpl hi').1 hskip) (encodeFields_keys fmt _ _ s.fields fs out hni hout _ hmem))
+              have hz := (hvals fd hm hr).2.1 hi' (by simp [omittedF, hskip])
+              simp only [hsk, Bool.false_eq_true, if_false, hnk, hz]
+            have hnsk : skipOf fmt fd = false := by simpa using hskip
+            obtain ⟨hkey, hplain⟩ := (hpl hi').2 hnsk
             simp only [hsk, Bool.false_eq_true, if_false]
             have hk : keyed fmt fd = true := by
               simp [keyed, hnsk, hi']
             rcases hrend fd hm hk with ⟨hom, hl⟩ | ⟨hom, t, he, hl⟩
             · rw [hkey] at hl
-              rw [homit fd hm hr] at hom
+              rw [homit fd hm hr hnsk] at hom
               simp only [hl, (hvals fd hm hr).2.1 hi' hom]
             · rw [hkey] at hl
-              rw [homit fd hm hr] at hom
+              rw [homit fd hm hr hnsk] at hom
               rw [hfield fd hm hr] at he
               have hst := (hvals fd hm hr).2.2 hi' hom
               obtain ⟨t', he', hd', hn'⟩ := ih fd.ty (vals fd) hplain hst
